@@ -1,5 +1,27 @@
 From Coq Require Import List.
-From VV Require Import Sched.Model.
-Theorem C04_placeholder : forall c s, terminal s = true -> master_step c s = None.
-Proof. intros c s H. unfold terminal in H. unfold master_step. destruct (mp s); try discriminate; reflexivity. Qed.
-Print Assumptions C04_placeholder.
+From VV Require Import Sched.Model Sched.Defs Sched.Inv Sched.ProofsC04.
+
+(* e0 arbitrary: whatever was carried over from earlier runs, with arbitrary losses *)
+Theorem C04_rerun_consistent :
+  forall c e0 st0 clk s, wf_cfg c -> junk_free e0 -> clocked e0 clk ->
+  reachable c e0 st0 clk s -> mp s = MReturned -> consistent c (env s) /\ clocked (env s) (clock s).
+Proof. exact rerun_consistent. Qed.
+Print Assumptions C04_rerun_consistent.
+
+(* finite histories: every run starts from any sub-map of the DONE entries of
+   the previous final environment, graph / outcomes / worker count may change,
+   the clock does not go back; every final environment is consistent (and is
+   again a possible starting point) *)
+Theorem C04_history :
+  forall c e clk0 e0 st0 clk s,
+  history e clk0 -> carry e e0 -> clk0 <= clk -> wf_cfg c ->
+  reachable c e0 st0 clk s -> mp s = MReturned ->
+  consistent c (env s) /\ clocked (env s) (clock s) /\ history (env s) (clock s).
+Proof. exact history_consistent. Qed.
+Print Assumptions C04_history.
+
+Theorem C04_no_needless_rerun :
+  forall c e0 st0 clk s t, wf_cfg c -> junk_free e0 -> clocked e0 clk -> reachable c e0 st0 clk s ->
+  t < ntasks c -> up_to_date c e0 t -> started s t = st0 t /\ env s t = e0 t.
+Proof. exact no_needless_rerun. Qed.
+Print Assumptions C04_no_needless_rerun.
